@@ -35,12 +35,30 @@ impl SegmentFileWriter {
             header.set_payload_length(payload_length);
             header.set_record_id(record_id);
         }
+        #[cfg(nomt_verif)]
+        {
+            use std::os::fd::AsRawFd as _;
+            crate::verif::io(
+                self.file.as_raw_fd(),
+                crate::verif::Op::Append { data: &header },
+                "seg.append_header",
+            )?;
+        }
         self.file.write_all(&header)?;
         self.file_size += HEADER_SIZE as u64;
         Ok(())
     }
 
     pub fn write_payload(&mut self, payload: &[u8]) -> std::io::Result<()> {
+        #[cfg(nomt_verif)]
+        {
+            use std::os::fd::AsRawFd as _;
+            crate::verif::io(
+                self.file.as_raw_fd(),
+                crate::verif::Op::Append { data: payload },
+                "seg.append_payload",
+            )?;
+        }
         self.file.write_all(payload)?;
         // Calculate the next aligned position.
         let record_alignment = RECORD_ALIGNMENT as u64;
@@ -52,6 +70,15 @@ impl SegmentFileWriter {
         };
         // The reason we are setting the length here is because otherwise if we just seek and not
         // set the length, then the underlying file may not be extended.
+        #[cfg(nomt_verif)]
+        {
+            use std::os::fd::AsRawFd as _;
+            crate::verif::io(
+                self.file.as_raw_fd(),
+                crate::verif::Op::SetLen(next_pos),
+                "seg.pad",
+            )?;
+        }
         self.file.set_len(next_pos)?;
         self.file.seek(SeekFrom::Start(next_pos))?;
         self.file_size = next_pos;
@@ -59,6 +86,11 @@ impl SegmentFileWriter {
     }
 
     pub fn fsync(&mut self) -> std::io::Result<()> {
+        #[cfg(nomt_verif)]
+        {
+            use std::os::fd::AsRawFd as _;
+            crate::verif::io(self.file.as_raw_fd(), crate::verif::Op::Fsync, "seg.fsync")?;
+        }
         self.file.sync_data()?;
         Ok(())
     }
